@@ -1538,6 +1538,9 @@ func (vc *VC) implFacts(iface types.Type, id int) {
 			continue
 		}
 		vc.declSeen[key] = true
+		if mentionsTypeParam(tt.t) {
+			continue // a type built from a type parameter: whether it implements the interface depends on the instance
+		}
 		v := "false"
 		if types.Implements(tt.t, it) {
 			v = "true"
@@ -1808,4 +1811,25 @@ func (vc *VC) f2i(st *State, x *Term) *Term {
 	}
 	vc.assumptions["float64<->integer conversions: exact for integral values below 2^53 (uninterpreted bridge i2f/f2i)"] = true
 	return r
+}
+
+// mentionsTypeParam reports whether t is, points to or is a slice of a type parameter.
+func mentionsTypeParam(t types.Type) bool {
+	switch u := types.Unalias(t).(type) {
+	case *types.TypeParam:
+		return true
+	case *types.Pointer:
+		return mentionsTypeParam(u.Elem())
+	case *types.Slice:
+		return mentionsTypeParam(u.Elem())
+	case *types.Named:
+		if ta := u.TypeArgs(); ta != nil {
+			for i := 0; i < ta.Len(); i++ {
+				if mentionsTypeParam(ta.At(i)) {
+					return true
+				}
+			}
+		}
+	}
+	return false
 }
